@@ -552,7 +552,7 @@ func runC05(r *rt.Runner) {
 		}
 		c.Feature("c05:scoping")
 	})
-	for b := 0; b < r.Scale(300, 8000); b++ {
+	for b := 0; b < r.Scale(300, 32000); b++ {
 		r.Do(fmt.Sprintf("bundle/%d", b), func(c *rt.C) {
 			bundle := detBundle(c.Rand())
 			// extras.proto uses options it declares itself; the harness re-links printed text through
